@@ -351,7 +351,9 @@ CHECKS = {
         level_note="ACL double implements subscribe.ACL/RPCACL from the table; user identity travels in the stream context",
         rule=("cases are scenarios of 8-36 steps; non-trivial = a '*' subscription for which, after its sync, updates were fed both for a denied and for an allowed target; distinct = distinct hash of the scenario"),
         assumptions=COMMON + [SYNCTEST_ASSUMPTION],
-        parts=[dict(name="random", run="TestC07Random", checks=dict(quick=2500, thorough=50000), shards=dict(quick=4, thorough=16))],
+        parts=[dict(name="random", run="TestC07Random", checks=dict(quick=2500, thorough=50000), shards=dict(quick=4, thorough=16)),
+               # an all-targets subscriber denied a target of 10000-70000 leaves: snapshot and refreshes withheld completely (each case costs seconds)
+               dict(name="huge", run="TestC07Huge", checks=dict(quick=2, thorough=8), shards=dict(quick=2, thorough=8))],
     ),
     "C08": dict(
         engine="subprop",
@@ -939,7 +941,8 @@ EXT3 = {
     "C07": dict(level_text=(" Further (a tenth of the scenarios): writer notifications handed to the exported per-target entry point of ANOTHER target than the one their prefix names "
                             "(cache.GetTarget(x).GnmiUpdate): stored in x's tree, every response built from them still names the prefix target, so a caller authorised for x and denied the named "
                             "target must not be sent them (single-target and all-targets subscriptions alike). 8% of the subscriptions begin with something that is not a request (half-close, Poll, no prefix, no target, "
-                            "empty message): with an unusable ACL backend the call must still end Unauthenticated with nothing sent."),
+                            "empty message): with an unusable ACL backend the call must still end Unauthenticated with nothing sent. Part huge: an all-targets subscriber (STREAM / ONCE / POLL) denied a target of "
+                            "10000-65537 leaves next to a small allowed one, whole-target refreshes: more denied notifications within one RPC than any 'every N-th' bookkeeping."),
                 level_note="; scenarios with such a foreign write are judged by the trace monitors only (nothing denied is ever handed to Send; status codes), convergence is not defined for them"),
     "C12": dict(level_text=(" Every rapid part runs with a generated glog verbosity (-v 0-3) per case: the diagnostics inside `if log.V(n)` blocks format the very messages a peer sent.")),
     "C02": dict(level_text=(" Further: future thresholds that mean 'never reject' (time.Duration(MaxInt64), 2^62, 290 years: every sum of a threshold and a timestamp wraps); values in the deprecated "
